@@ -728,6 +728,35 @@ def run(ctx):
                                          out[2]))])
         ctx.instance(R)
         ctx.oblige(True)
+    # at vlevel 0 the tags of the incoming line are decoded when first read:
+    # the first get() of each tag can refuse the line (malformed J/B/H)
+    class LazyGet(AH2):
+        def __init__(self, repo, script):
+            super().__init__(repo)
+            self.script = script
+            self.decoded = set()
+
+        def method(self, ev, base, name, args, kwargs, node):
+            if name == "get" and isinstance(base, Abs) and \
+                    base.label == "line:H" and args and \
+                    args[0] not in self.decoded:
+                self.script.call("get:" + args[0], "gfapy.FormatError")
+                self.decoded.add(args[0])
+            return super().method(ev, base, name, args, kwargs, node)
+
+    def run_once(script):
+        h = Abs(hdr, label="header", _data={"aa": 0}, _datatype={"aa": "i"},
+                vlevel=0)
+        ln = Abs(hdr, label="line:H", _data={"xx": 1, "yy": 2, "zz": 3},
+                 _datatype={"xx": "i", "yy": "J", "zz": "i"}, vlevel=0)
+        before = snapshot([h])
+        out = eval_function(repo, f_merge, [h, ln],
+                            hooks=LazyGet(repo, script))
+        return out, before, snapshot([h]), out[2]
+    judge(R, f_merge, "vlevel=0,lazy decoding of the incoming tags",
+          enumerate_faults(run_once, {
+              "get:xx": "gfapy.FormatError", "get:yy": "gfapy.FormatError",
+              "get:zz": "gfapy.FormatError"}))
     for vl, prevkind, dt_arg in itertools.product(
             [0, 2], ["array", "scalar"], ["i", "Z"]):
         arr = Abs(FA, label="array", _datatype="i", datatype="i",
@@ -870,4 +899,27 @@ def run(ctx):
                           "the loop body between the checks" %
                           unparse(raises[0].exc)[:50])
     ctx.notes["generator_functions_in_scope"] = n_gen
+    ctx.exhaustive[R] = True
+
+
+    # ------------------------------------------------------------------
+    R = "C08.registration_cannot_fail"
+    ctx.rule(R, "Creators._register_line, the last step of connect, of the "
+             "placeholder substitution and of a rename (all of which have "
+             "already changed the Gfa when they reach it), raises nothing "
+             "itself", floor=1)
+    f_reg = ctx.anchor("Gfa._register_line",
+                       gfacls.find_method("_register_line"))
+    from ..model import walk_no_nested
+    ctx.instance(R)
+    raises = [n for n in walk_no_nested(f_reg.node)
+              if isinstance(n, ast.Raise) and n.exc is not None and
+              "AssertionError" not in unparse(n.exc)]
+    ok = not raises
+    ctx.oblige(ok)
+    if not ok:
+        ctx.violation(R, f_reg.short, "raise",
+                      "the registry insertion can refuse the line (%s) after "
+                      "its callers have written to the Gfa" %
+                      unparse(raises[0].exc)[:60])
     ctx.exhaustive[R] = True
